@@ -45,4 +45,16 @@ PROPS = {
         "not_modelled": "noise magnitude (C01/C03), unit locality (C05)",
         "assumptions": ["a Reduce with rule [PUP] -> DP is the only noise-adding step; a table labelled SD is replaced by its synthetic counterpart"],
     },
+    "C03": {
+        "model_targets": ["QV/Corr/C03.vo"],
+        "oracle": "on the rewritten relation: every noised sum has its own recorded Gaussian entry with multiplier <= sigma/C (sorted matching); every tau filter has a recorded EpsilonDelta whose budget gives at most the sigma used",
+        "trusted": [
+            "correspondence: harness/src/c03.rs + ir.rs (reads sigma, clipping constant C and tau off the rewritten IR; derives the number of sums per DISTINCT group from the Reduce) and QV/Corr/C03.v (plan evaluated on rationals; ln tabulated by the implementation's f64 ln at the model's own points)",
+            "real-number axioms of Coq's Reals for the theorems over R",
+            "cited, not proved: a Gaussian mechanism with sigma/C = sqrt(2 ln(1.25/delta))/eps is (eps,delta)-DP for eps<1 (Dwork-Roth A.1)",
+            "modelled, not verified: Reduce::differentially_private budget flow, DpAggregatesParameters::{from_dp_parameters,split}, gaussian_mechanisms, DpEvent::{compose,is_no_op}",
+        ],
+        "not_modelled": "f64 rounding of the budget arithmetic (compared at 1e-8); clamp of infinite multipliers",
+        "assumptions": ["eps > 0, delta > 0, 0 <= share <= 1 (share < 1 when keys need thresholding)"],
+    },
 }
